@@ -32,6 +32,14 @@ class WorkError(Exception):
         self.i = i
 
 
+class RetVal(Exception):
+    """an exception object that the worker function RETURNS (it is that element's result)"""
+
+    def __init__(self, i):
+        super().__init__(i)
+        self.i = i
+
+
 class PreError(Exception):
     def __init__(self, i):
         super().__init__(i)
@@ -54,7 +62,11 @@ def gen_case(rng: random.Random, tier: str, bias: str = ''):
     rexc = rng.random() < 0.5
     pf = sorted(i for i in range(n) if pre and rng.random() < 0.15)
     re = sorted(i for i in range(n) if rng.random() < (0.15 if bias != 'order' else 0.08))
-    src = rng.choice(['clean'] * 5 + ['exc', 'exc', 'stopreq'])
+    # elements on which the worker function RETURNS an exception object (an ordinary result)
+    rv = sorted(i for i in range(n) if i not in re and rng.random() < 0.08)
+    src = rng.choice(['clean'] * 5 + ['exc', 'exc', 'stopreq', 'iterexc'])
+    if src == 'iterexc':
+        n = 0          # the source fails when its iterator is created: nothing is ever produced
     stop_after = None
     if n > 0 and rng.random() < (0.6 if bias == 'stop' else 0.25):
         stop_after = rng.randrange(1, n + 1)
@@ -62,10 +74,11 @@ def gen_case(rng: random.Random, tier: str, bias: str = ''):
     dur = [rng.choice([0, 0, 1, 2, 5, 9]) for _ in range(n)]
     if bias == 'order' and n >= 2 and rng.random() < 0.5:
         dur = [max(0, 2 * (n - i) + rng.randrange(3)) for i in range(n)]
-    ch = rng.choice([('random', 0.0), ('random', 0.0), ('sticky', 0.2, 0.0), ('sticky', 0.05, 0.0),
-                     ('pct', 2, 300, 0.0), ('pct', 3, 300, 0.0)])
+    ep = rng.choice([0.0, 0.0, 0.05, 0.2])     # timed waits (if the code has any) may expire at any moment
+    ch = rng.choice([('random', ep), ('random', ep), ('sticky', 0.2, ep), ('sticky', 0.05, ep),
+                     ('pct', 2, 300, ep), ('pct', 3, 300, ep)])
     return dict(kind=kind, n=n, src=src, cap=cap, conc=conc, rexc=rexc, retx=rng.random() < 0.4,
-                pre=pre, pf=pf, re=re, stop_after=stop_after,
+                pre=pre, pf=pf, re=re, rv=rv, again=(kind == 'parmap' and rng.random() < 0.5), stop_after=stop_after,
                 stop_mode=rng.choice(['close', 'close', 'del']), dur=dur, chooser=list(ch),
                 seed=rng.randrange(1 << 30))
 
@@ -84,14 +97,16 @@ def expected(case):
             kind = 'pre'
         elif i in case['re']:
             kind = 'work'
+        elif i in case.get('rv', ()):
+            kind = 'retexc'
         else:
             kind = 'ok'
-        if kind != 'ok' and not case['rexc']:
+        if kind in ('pre', 'work') and not case['rexc']:
             end = ('raise', kind, i)
             break
         out.append((i, kind))
     else:
-        if case['src'] == 'exc':
+        if case['src'] in ('exc', 'iterexc'):
             end = ('raise', 'src', None)
         elif case['src'] == 'stopreq':
             end = ('raise', 'stopreq', None)
@@ -113,6 +128,8 @@ def _decode(v, retx):
         return ix, y.i, 'work'
     if isinstance(y, PreError):
         return ix, y.i, 'pre'
+    if isinstance(y, RetVal):
+        return ix, y.i, 'retexc'
     if isinstance(y, tuple) and len(y) == 2 and y[0] == 'y':
         return ix, y[1], 'ok'
     return ix, None, 'garbage'
@@ -125,12 +142,16 @@ def run_case(case):
              'calls': {}, 'viol': []}
     n, conc, cap = case['n'], case['conc'], case['cap']
     pf, re, dur = set(case['pf']), set(case['re']), case['dur']
+    rv = set(case.get('rv', ()))
 
     class Src:
         def __init__(self):
             self.i = 0
 
         def __iter__(self):
+            if case['src'] == 'iterexc':
+                log(('srcRaise',))
+                raise SrcError('src')
             return self
 
         def __next__(self):
@@ -163,10 +184,23 @@ def run_case(case):
                 detsched.yield_here('work')
             if i in re:
                 raise WorkError(i)
+            if i in rv:
+                return RetVal(i)
             return ('y', i)
         finally:
             state['running'] -= 1
             log(('finish', i))
+
+    def work2(x):
+        state['running'] += 1
+        if state['running'] > state['max_running']:
+            state['max_running'] = state['running']
+        try:
+            for _ in range(3):
+                detsched.yield_here('work2')
+            return x
+        finally:
+            state['running'] -= 1
 
     def pre(x):
         i = x - BASE
@@ -177,7 +211,8 @@ def run_case(case):
 
     class LoggingTPE(_OrigTPE):
         def submit(self, fn, x, *a, **kw):
-            log(('submit', x - BASE))
+            if not state.get('second'):
+                log(('submit', x - BASE))
             return super().submit(fn, x, *a, **kw)
 
     def main():
@@ -192,6 +227,13 @@ def run_case(case):
                     return_exceptions=case['rexc'], preprocessor=pre if case['pre'] else None)
                 box = [iter(stream)]
                 end = consume(box, out)
+                if case.get('again') and end[0] != 'end':
+                    # the iteration ended early (close / failure): consume a second stream right away;
+                    # calls left running by the first one would add to the concurrency (C08)
+                    state['second'] = True
+                    second = Stream(list(range(BASE + n, BASE + n + 2 * conc))).parmap(
+                        work2, executor='thread', concurrency=conc)
+                    state['second_out'] = list(second)
             finally:
                 _S.ThreadPoolExecutor = _OrigTPE
         else:
@@ -240,6 +282,10 @@ def run_case(case):
             state['recv'] += 1
             log(('join',))
             return ('raise', 'pre', e.i)
+        except RetVal as e:
+            # a RETURNED exception object must never be raised (it is that element's result)
+            log(('join',))
+            return ('raise', 'retexc', e.i)
         except SrcError:
             log(('join',))
             return ('raise', 'src', None)
@@ -277,7 +323,7 @@ def run_case(case):
         if cnt != 1 or i in pf:
             mon.append(dict(prop='C01', rule='exactly-once', detail=f'element {i} invoked {cnt} times (pf={i in pf})'))
     for (_ix, iy, kind) in out:
-        if kind in ('ok', 'work') and state['calls'].get(iy, 0) != 1:
+        if kind in ('ok', 'work', 'retexc') and state['calls'].get(iy, 0) != 1:
             mon.append(dict(prop='C01', rule='exactly-once', detail=f'delivered element {iy} invoked {state["calls"].get(iy, 0)} times'))
     # C05: ending
     if tuple(end) != tuple(exp_end):
